@@ -471,7 +471,7 @@ func (p *partition) newSubscribeLoop(ctx context.Context, groupID, consumerID st
 		p.increaseSubscriberCount()
 		defer p.decreaseSubscriberCount()
 		if groupID != "" {
-			defer p.removeGroupSubscriber(groupID, consumerID)
+			defer p.removeGroupSubscriber(groupID, cancel)
 		}
 
 		headersBuf := make([]byte, 28)
@@ -556,14 +556,18 @@ func (p *partition) newSubscribeLoop(ctx context.Context, groupID, consumerID st
 	}
 }
 
-func (p *partition) removeGroupSubscriber(groupID, consumerID string) {
+// removeGroupSubscriber removes the group's subscriber entry if it still
+// belongs to the subscription identified by its closed channel. The entry may
+// have been taken over meanwhile, also by a subscriber with the same consumer
+// id, in which case it must be left alone.
+func (p *partition) removeGroupSubscriber(groupID string, closed <-chan struct{}) {
 	p.consumersMu.Lock()
 	defer p.consumersMu.Unlock()
-	sub, ok := p.consumers[groupID]
+	member, ok := p.consumers[groupID]
 	if !ok {
 		return
 	}
-	if sub.consumerID == consumerID {
+	if member.sub.closed == closed {
 		delete(p.consumers, groupID)
 	}
 }
